@@ -32,8 +32,8 @@ func init() {
 		Technique: "translation validation of a yacc grammar: doc table vs %left/%right declarations, goyacc regeneration and table comparison, reference interpretation of the committed LALR tables against a parser derived from the documentation, SSA/AST checks of actions, scanner, build and Match",
 		Meta: core.Meta{
 			Level:       "translation_validation",
-			Explanation: "Decides the whole chain from docs/en_us/condition/condition_grammar.md to BinaryCond/UnaryCond.Match: (1) the documented table orders () > ! (right) > && (left) > || (left); (2) cond.y declares NOT above LAND above LOR with those associativities, has exactly the documented expr productions and no %prec; (3) y.go is what goyacc (x/tools v0.29.0, built from the module cache) generates from cond.y: the 11 parser tables, token constants and token names are equal value for value and every other declaration (driver, semantic actions, lexer glue) is syntactically equal modulo goyacc's int narrowing; the LALR automaton printed by goyacc resolves `expr OP expr .` on a following operator exactly as the committed tables do; (4) the committed tables, run by a reference implementation of the yacc driver with the semantic actions read from y.go, give the same tree and truth table as a Pratt parser built from the documented table for every expression of up to 11 symbols over {primitive, &&, ||, !, (, )} (exhaustive; language equality on every prefix); (5) each action builds BinaryExpr/UnaryExpr/ParenExpr with the production's own operator and operands in source order; (6) the scanner yields LAND only for `&&`, LOR only for `||`, NOT for `!`, LPAREN/RPAREN for `(`/`)`, and condLex.Lex passes these tokens unchanged; Parser.Parse stores the top production's node; (7) build dispatches by node type, buildBinary/buildUnary pass Op, X, Y through unchanged; (8) BinaryCond.Match is `lc && rc` under op==LAND and `lc || rc` under op==LOR over exactly the two operands, UnaryCond.Match is `!cond` under op==NOT. Not covered: expressions longer than the enumeration bound are covered only through the table-equality and automaton links (3), which trust goyacc's LALR construction; the truth values of the primitives themselves (C18); error recovery of the driver on malformed input (C17).",
-			RuleText:    "obligations = rows of the documentation table, %left/%right relations, each generated table, the automaton's resolution of each (completed binary/unary production, following operator) pair, the three expression classes of the exhaustive comparison (language, unmixed, mixed &&/||), each semantic action, each operator token in the scanner and in Lex, each field of BinaryCond/UnaryCond built, each arm of the two Match methods. A `program` is one accepted token string; it is non-trivial when it contains at least two operators.",
+			Explanation: "Decides the whole chain from docs/en_us/condition/condition_grammar.md to BinaryCond/UnaryCond.Match: (1) the documented table orders () > ! (right) > && (left) > || (left); (2) cond.y declares NOT above LAND above LOR with those associativities, has exactly the documented expr productions and no %prec; (3) y.go is what goyacc (x/tools v0.29.0, built from the module cache) generates from cond.y: the 11 parser tables, token constants and token names are equal value for value and every other declaration (driver, semantic actions, lexer glue) is syntactically equal modulo goyacc's int narrowing; the LALR automaton printed by goyacc resolves `expr OP expr .` on a following operator exactly as the committed tables do; (4) the committed tables, run by a reference implementation of the yacc driver with the semantic actions read from y.go, give the same tree and truth table as a Pratt parser built from the documented table for every expression of up to 11 symbols over {primitive, &&, ||, !, (, )} (exhaustive; language equality on every prefix); (5) each action builds BinaryExpr/UnaryExpr/ParenExpr with the production's own operator and operands in source order; (6) the scanner yields LAND only for `&&`, LOR only for `||`, NOT for `!`, LPAREN/RPAREN for `(`/`)`, and condLex.Lex passes these tokens unchanged; Parser.Parse stores the top production's node; (7) the function that receives the tree of parser.Parse from Build dispatches on the node type (found by that role, not by name): for a BinaryExpr/UnaryExpr every success result, followed through private helpers and constructor helpers or written in place, is a BinaryCond/UnaryCond whose op is the node's own Op and whose operands are the conditions built from the node's own X (and Y); a ParenExpr yields the condition of its X and a CallExpr buildPrimitive of the node; (8) BinaryCond.Match and UnaryCond.Match are evaluated by an SSA interpreter on every combination of operator value and operand truth values (private helpers included; a branch the inputs do not determine is explored both ways and must not change the result): the result is lc && rc under LAND, lc || rc under LOR, !cond under NOT and false for any other operator, whatever the spelling (switch, if-chain, early returns, explicit short-circuit, named booleans). Not covered: a Match method that walks operand trees itself (loops, type assertions on operands) is reported as undecided rather than analysed; semantic actions are read as one assignment of a composite literal to $$ whose operands are $-values or block locals defined once from them; operand evaluation order and the number of evaluations (primitives have no side effects); expressions longer than the enumeration bound are covered only through the table-equality and automaton links (3), which trust goyacc's LALR construction; the truth values of the primitives themselves (C18); error recovery of the driver on malformed input (C17).",
+			RuleText:    "obligations = rows of the documentation table, %left/%right relations, each generated table, the automaton's resolution of each (completed binary/unary production, following operator) pair, the three expression classes of the exhaustive comparison (language, unmixed, mixed &&/||), each semantic action, each operator token in the scanner and in Lex, each arm of the type dispatch and each field of the BinaryCond/UnaryCond it yields, each operator class of the two Match methods (all operand truth-value combinations). A `program` is one accepted token string; it is non-trivial when it contains at least two operators.",
 			Assumptions: []string{"goyacc of x/tools v0.29.0 implements yacc precedence resolution (later %left/%right line = higher precedence) and LALR(1) construction correctly", "condition primitives have no side effects, so two trees with equal truth tables are equivalent"},
 		},
 		Run: runC16,
@@ -49,6 +49,10 @@ func init() {
 			{Name: "build-right-operand-lost", File: "bfe_basic/condition/build.go", Old: "return &BinaryCond{op: node.Op, lc: l, rc: r}, nil", New: "_ = r\n\treturn &BinaryCond{op: node.Op, lc: l, rc: l}, nil", Expect: "build|buildBinary:rc"},
 			{Name: "build-paren-dropped-negation", File: "bfe_basic/condition/build.go", Old: "	return &UnaryCond{op: node.Op, cond: c}, nil", New: "	return c, nil", Expect: "build|buildUnary"},
 			{Name: "silent-match-rewritten-as-if", File: "bfe_basic/condition/composite.go", Old: "	switch uc.op {\n	case parser.NOT:\n		return !uc.cond.Match(req)\n	default:\n		return false\n	}", New: "	if uc.op == parser.NOT {\n		inner := uc.cond\n		return !inner.Match(req)\n	}\n	return false", Silent: true},
+			{Name: "silent-binary-match-as-early-returns", File: "bfe_basic/condition/composite.go", Old: "\tswitch bc.op {\n\tcase parser.LAND:\n\t\treturn bc.lc.Match(req) && bc.rc.Match(req)\n\tcase parser.LOR:\n\t\treturn bc.lc.Match(req) || bc.rc.Match(req)\n\tdefault:\n\t\treturn false\n\t}", New: "\tif bc.op == parser.LOR {\n\t\tif bc.lc.Match(req) {\n\t\t\treturn true\n\t\t}\n\t\treturn bc.rc.Match(req)\n\t}\n\tif bc.op != parser.LAND {\n\t\treturn false\n\t}\n\tleft := bc.lc.Match(req)\n\tif !left {\n\t\treturn false\n\t}\n\treturn bc.rc.Match(req)", Silent: true},
+			{Name: "silent-build-unary-inlined", File: "bfe_basic/condition/build.go", Old: "\tcase *parser.UnaryExpr:\n\t\treturn buildUnary(n)\n\tcase *parser.BinaryExpr:\n\t\treturn buildBinary(n)\n\tcase *parser.ParenExpr:\n\t\treturn build(n.X)\n\tdefault:\n\t\treturn nil, fmt.Errorf(\"unsupported node %s\", node)\n\t}\n}\n\nfunc buildUnary(node *parser.UnaryExpr) (Condition, error) {\n\tc, err := build(node.X)\n\tif err != nil {\n\t\treturn nil, err\n\t}\n\n\treturn &UnaryCond{op: node.Op, cond: c}, nil\n\n}\n", New: "\tcase *parser.UnaryExpr:\n\t\toperand, err := build(n.X)\n\t\tif err != nil {\n\t\t\treturn nil, err\n\t\t}\n\t\treturn &UnaryCond{op: n.Op, cond: operand}, nil\n\tcase *parser.BinaryExpr:\n\t\treturn buildBinary(n)\n\tcase *parser.ParenExpr:\n\t\treturn build(n.X)\n\tdefault:\n\t\treturn nil, fmt.Errorf(\"unsupported node %s\", node)\n\t}\n}\n", Silent: true},
+			{Name: "silent-build-binary-ctor-extracted", File: "bfe_basic/condition/build.go", Old: "\tr, err := build(node.Y)\n\tif err != nil {\n\t\treturn nil, err\n\t}\n\n\treturn &BinaryCond{op: node.Op, lc: l, rc: r}, nil\n}\n", New: "\tr, err := build(node.Y)\n\tif err != nil {\n\t\treturn nil, err\n\t}\n\tif l == nil || r == nil {\n\t\treturn nil, fmt.Errorf(\"binary expr %s: operand not built\", node.Op)\n\t}\n\n\treturn newBinaryCond(node, l, r), nil\n}\n\nfunc newBinaryCond(expr *parser.BinaryExpr, left, right Condition) Condition {\n\treturn &BinaryCond{op: expr.Op, lc: left, rc: right}\n}\n", Silent: true},
+			{Name: "silent-scanner-and-test-inverted", File: "bfe_basic/condition/parser/scanner.go", Old: "\t\tcase '&':\n\t\t\tif s.ch == '&' {\n\t\t\t\ts.next()\n\t\t\t\ttok = LAND\n\t\t\t\tlit = \"&&\"\n\t\t\t} else {\n\t\t\t\ttok = ILLEGAL\n\t\t\t\tlit = string(ch)\n\t\t\t}", New: "\t\tcase '&':\n\t\t\tif '&' != s.ch {\n\t\t\t\ttok = ILLEGAL\n\t\t\t\tlit = string(ch)\n\t\t\t} else {\n\t\t\t\ts.next()\n\t\t\t\ttok = LAND\n\t\t\t\tlit = \"&&\"\n\t\t\t}", Silent: true},
 			{Name: "silent-build-locals-renamed", File: "bfe_basic/condition/build.go", Old: "	r, err := build(node.Y)\n	if err != nil {\n		return nil, err\n	}\n\n	return &BinaryCond{op: node.Op, lc: l, rc: r}, nil", New: "	right, err := build(node.Y)\n	if err != nil {\n		return nil, err\n	}\n	res := &BinaryCond{lc: l}\n	res.rc = right\n	res.op = node.Op\n	return res, nil", Silent: true},
 		},
 	})
@@ -241,9 +245,87 @@ func symsToSource(s string) string {
 
 // ---- semantic actions of y.go ------------------------------------------------
 
+// cxLocalDefs maps the block-scoped locals of one semantic action that are
+// defined once (`lhs := $1.Node.(Expr)`) and never reassigned to their
+// defining expression, so that an action written with named intermediates is
+// read like the same action with the expressions in place.
+type cxLocalDefs struct {
+	info *types.Info
+	defs map[types.Object]ast.Expr
+}
+
+func cxCollectLocalDefs(body []ast.Stmt, info *types.Info) *cxLocalDefs {
+	ld := &cxLocalDefs{info: info, defs: map[types.Object]ast.Expr{}}
+	if info == nil {
+		return ld
+	}
+	reassigned := map[types.Object]bool{}
+	for _, st := range body {
+		ast.Inspect(st, func(n ast.Node) bool {
+			switch x := n.(type) {
+			case *ast.AssignStmt:
+				for i, l := range x.Lhs {
+					id, ok := l.(*ast.Ident)
+					if !ok {
+						continue
+					}
+					if o := info.Defs[id]; o != nil && x.Tok == token.DEFINE && len(x.Lhs) == len(x.Rhs) {
+						if _, dup := ld.defs[o]; dup {
+							reassigned[o] = true
+						}
+						ld.defs[o] = x.Rhs[i]
+						continue
+					}
+					if o := info.Uses[id]; o != nil {
+						reassigned[o] = true
+					}
+				}
+			case *ast.IncDecStmt:
+				if id, ok := x.X.(*ast.Ident); ok {
+					if o := info.Uses[id]; o != nil {
+						reassigned[o] = true
+					}
+				}
+			case *ast.UnaryExpr:
+				if id, ok := x.X.(*ast.Ident); ok && x.Op == token.AND {
+					if o := info.Uses[id]; o != nil {
+						reassigned[o] = true
+					}
+				}
+			}
+			return true
+		})
+	}
+	for o := range reassigned {
+		delete(ld.defs, o)
+	}
+	return ld
+}
+
+// subst replaces a local defined once by its defining expression (transitively).
+func (ld *cxLocalDefs) subst(e ast.Expr) ast.Expr {
+	for i := 0; ld != nil && ld.info != nil && i < 8; i++ {
+		switch x := e.(type) {
+		case *ast.ParenExpr:
+			e = x.X
+			continue
+		case *ast.Ident:
+			if o := ld.info.Uses[x]; o != nil {
+				if d, ok := ld.defs[o]; ok {
+					e = d
+					continue
+				}
+			}
+		}
+		break
+	}
+	return e
+}
+
 // cxDollarIndex: condDollar[i].Node(.(T))? -> i
-func cxDollarIndex(e ast.Expr) (int, bool) {
+func cxDollarIndex(e ast.Expr, ld *cxLocalDefs) (int, bool) {
 	for {
+		e = ld.subst(e)
 		switch x := e.(type) {
 		case *ast.TypeAssertExpr:
 			e = x.X
@@ -268,11 +350,11 @@ func cxDollarIndex(e ast.Expr) (int, bool) {
 	}
 }
 
-func cxDescribeAction(rhs ast.Expr, info *types.Info) yAction {
-	if i, ok := cxDollarIndex(rhs); ok {
+func cxDescribeAction(rhs ast.Expr, info *types.Info, ld *cxLocalDefs) yAction {
+	if i, ok := cxDollarIndex(rhs, ld); ok {
 		return yAction{Kind: "copy", X: i}
 	}
-	e := rhs
+	e := ld.subst(rhs)
 	if u, ok := e.(*ast.UnaryExpr); ok && u.Op == token.AND {
 		e = u.X
 	}
@@ -306,7 +388,7 @@ func cxDescribeAction(rhs ast.Expr, info *types.Info) yAction {
 		}
 	}
 	constName := func(e ast.Expr) string {
-		if id, ok := e.(*ast.Ident); ok {
+		if id, ok := ld.subst(e).(*ast.Ident); ok {
 			if k, ok := info.Uses[id].(*types.Const); ok {
 				return k.Name()
 			}
@@ -315,7 +397,7 @@ func cxDescribeAction(rhs ast.Expr, info *types.Info) yAction {
 	}
 	idx := func(name string) int {
 		if e, ok := fields[name]; ok {
-			if i, ok := cxDollarIndex(e); ok {
+			if i, ok := cxDollarIndex(e, ld); ok {
 				return i
 			}
 		}
@@ -358,6 +440,7 @@ func yActions(f *ast.File, info *types.Info, prefix string) map[int]yAction {
 			}
 			act := yAction{Kind: "unknown"}
 			nAssign := 0
+			ld := cxCollectLocalDefs(cc.Body, info)
 			for _, st := range cc.Body {
 				ast.Inspect(st, func(m ast.Node) bool {
 					as, ok := m.(*ast.AssignStmt)
@@ -367,12 +450,12 @@ func yActions(f *ast.File, info *types.Info, prefix string) map[int]yAction {
 					switch l := as.Lhs[0].(type) {
 					case *ast.SelectorExpr:
 						if id, ok := l.X.(*ast.Ident); ok && id.Name == prefix+"VAL" && l.Sel.Name == "Node" {
-							act = cxDescribeAction(as.Rhs[0], info)
+							act = cxDescribeAction(as.Rhs[0], info, ld)
 							nAssign++
 						}
 					case *ast.Ident:
 						if l.Name == "parseNode" {
-							if i, ok := cxDollarIndex(as.Rhs[0]); ok {
+							if i, ok := cxDollarIndex(as.Rhs[0], ld); ok {
 								act = yAction{Kind: "top", X: i}
 							}
 							nAssign++
@@ -873,18 +956,12 @@ func cxTokenEdges(v ssa.Value) map[int64][]*ssa.BasicBlock {
 // that hold at b.
 func cxCharTests(b *ssa.BasicBlock, ch rune) map[ssa.Value]bool {
 	out := map[ssa.Value]bool{}
-	for _, g := range core.GuardsAt(b) {
-		if !g.Pol {
-			continue
-		}
-		bo, ok := g.Cond.(*ssa.BinOp)
-		if !ok || bo.Op != token.EQL {
-			continue
-		}
-		for _, pr := range [][2]ssa.Value{{bo.X, bo.Y}, {bo.Y, bo.X}} {
-			if n, ok := cxConstInt(pr[1]); ok && n == int64(ch) && strings.HasSuffix(core.Render(pr[0]), ".ch") {
-				out[g.Cond] = true
-			}
+	isCh := func(v ssa.Value) bool { _, ok := cxLoadField(v, "ch"); return ok }
+	isK := func(v ssa.Value) bool { n, ok := cxConstInt(v); return ok && n == int64(ch) }
+	for _, g := range cxFactsAt(b) {
+		// `s.ch == c` in any spelling: mirrored operands, `!(s.ch != c)`, the else branch of `s.ch != c`
+		if g.CmpIs(token.EQL, isCh, isK) {
+			out[g.Cond] = true
 		}
 	}
 	return out
@@ -991,15 +1068,8 @@ func c16Lex(c *core.Ctx, yt *yTables) {
 					gs = core.GuardsOnEdge(p, r.Block())
 				}
 				hit := false
-				for _, g := range gs {
-					bo, isb := g.Cond.(*ssa.BinOp)
-					if !g.Pol || !isb || bo.Op != token.EQL {
-						continue
-					}
-					if k, isk := cxConstInt(bo.Y); isk && k == val && bo.X == scanned {
-						hit = true
-					}
-					if k, isk := cxConstInt(bo.X); isk && k == val && bo.Y == scanned {
+				for _, g := range cxExpand(gs) {
+					if g.CmpIs(token.EQL, func(v ssa.Value) bool { return v == scanned }, func(v ssa.Value) bool { k, isk := cxConstInt(v); return isk && k == val }) {
 						hit = true
 					}
 				}
@@ -1044,153 +1114,301 @@ func c16Lex(c *core.Ctx, yt *yTables) {
 
 // ---- (7) build -------------------------------------------------------------------
 
-// cxFieldStoreVals returns, for the struct allocated as the result, the values
-// stored in each named field (all stores in fn to fields of a *T alloc).
-func cxFieldStoreVals(fn *ssa.Function, typeName string) map[string][]ssa.Value {
-	out := map[string][]ssa.Value{}
-	core.Instrs(fn, func(in ssa.Instruction) {
-		st, ok := in.(*ssa.Store)
-		if !ok {
-			return
-		}
-		fa, ok := st.Addr.(*ssa.FieldAddr)
-		if !ok {
-			return
-		}
-		pt, ok := fa.X.Type().Underlying().(*types.Pointer)
-		if !ok {
-			return
-		}
-		n, ok := pt.Elem().(*types.Named)
-		if !ok || n.Obj().Name() != typeName {
-			return
-		}
-		if f := core.FieldObj(fa.X, fa.Field); f != nil {
-			out[f.Name()] = append(out[f.Name()], st.Val)
-		}
-	})
-	return out
-}
-
-// c16IsBuildOf: v is result #0 of build(<node>.<field>).
-func c16IsBuildOf(v ssa.Value, node, field string) bool {
-	ex, ok := core.StripConv(v).(*ssa.Extract)
-	if !ok || ex.Index != 0 {
-		return false
-	}
-	call, ok := ex.Tuple.(*ssa.Call)
-	if !ok || !core.CallIs(&call.Call, condPkg+".build") || len(call.Call.Args) != 1 {
-		return false
-	}
-	return core.Render(call.Call.Args[0]) == node+"."+field
-}
-
-func c16Build(c *core.Ctx) {
-	bb := c.P.Func(condPkg, "buildBinary")
-	if bb == nil {
-		c.Missing(condPkg + ".buildBinary")
-	} else {
-		c.Analysed(core.FuncKey(bb))
-		fs := cxFieldStoreVals(bb, "BinaryCond")
-		one := func(name string, pred func(ssa.Value) bool, want string) {
-			vs := fs[name]
-			ok := len(vs) > 0
-			got := ""
-			for _, v := range vs {
-				got += core.Render(v) + " "
-				if !pred(v) {
-					ok = false
-				}
-			}
-			c.Check("build", "buildBinary:"+name, bb.Pos(), ok, "BinaryCond."+name+" is built from "+got+"; expected "+want)
-		}
-		one("op", func(v ssa.Value) bool { return core.Render(v) == cxP(bb, 0)+".Op" }, "node.Op")
-		one("lc", func(v ssa.Value) bool { return c16IsBuildOf(v, cxP(bb, 0), "X") }, "build(node.X)")
-		one("rc", func(v ssa.Value) bool { return c16IsBuildOf(v, cxP(bb, 0), "Y") }, "build(node.Y)")
-	}
-	bu := c.P.Func(condPkg, "buildUnary")
-	if bu == nil {
-		c.Missing(condPkg + ".buildUnary")
-	} else {
-		c.Analysed(core.FuncKey(bu))
-		fs := cxFieldStoreVals(bu, "UnaryCond")
-		okOp := len(fs["op"]) > 0
-		for _, v := range fs["op"] {
-			okOp = okOp && core.Render(v) == cxP(bu, 0)+".Op"
-		}
-		okC := len(fs["cond"]) > 0
-		for _, v := range fs["cond"] {
-			okC = okC && c16IsBuildOf(v, cxP(bu, 0), "X")
-		}
-		c.Check("build", "buildUnary:op", bu.Pos(), okOp, "UnaryCond.op must be node.Op")
-		c.Check("build", "buildUnary:cond", bu.Pos(), okC, "UnaryCond.cond must be build(node.X)")
-		// every success return returns the UnaryCond built here
-		for i, r := range core.Returns(bu) {
-			rv := core.RetVals(r)
-			if len(rv) != 2 || !isNilConst(rv[1]) {
-				continue
-			}
-			a, isAlloc := core.StripConv(rv[0]).(*ssa.Alloc)
-			ok := isAlloc && strings.HasSuffix(core.TypeStr(a.Type()), "UnaryCond")
-			c.Check("build", fmt.Sprintf("buildUnary:success-return#%d", i), r.Pos(), ok, "buildUnary returns "+core.Render(rv[0])+" on success instead of the UnaryCond wrapping the operand: the negation is lost")
-		}
-	}
-	if bb != nil {
-		for i, r := range core.Returns(bb) {
-			rv := core.RetVals(r)
-			if len(rv) != 2 || !isNilConst(rv[1]) {
-				continue
-			}
-			a, isAlloc := core.StripConv(rv[0]).(*ssa.Alloc)
-			ok := isAlloc && strings.HasSuffix(core.TypeStr(a.Type()), "BinaryCond")
-			c.Check("build", fmt.Sprintf("buildBinary:success-return#%d", i), r.Pos(), ok, "buildBinary returns "+core.Render(rv[0])+" on success instead of the BinaryCond built from both operands")
-		}
-	}
-	// dispatch in build
-	b := c.P.Func(condPkg, "build")
-	if b == nil {
-		c.Missing(condPkg + ".build")
-		return
-	}
-	c.Analysed(core.FuncKey(b))
-	wantDisp := map[string]string{"BinaryExpr": condPkg + ".buildBinary", "UnaryExpr": condPkg + ".buildUnary", "ParenExpr": condPkg + ".build", "CallExpr": condPkg + ".buildPrimitive"}
-	found := map[string]bool{}
-	for _, call := range core.AllCalls(b) {
-		callee := core.CalleeKey(call.Common())
-		_, ts := enclosingArm(call.Block())
-		if len(ts) != 1 || len(call.Common().Args) != 1 {
-			continue
-		}
-		tn := core.TypeStr(ts[0])
-		tn = tn[strings.LastIndex(tn, ".")+1:]
-		want, isNode := wantDisp[tn]
-		if !isNode || !strings.HasPrefix(callee, condPkg+".build") {
-			continue
-		}
-		found[tn] = true
-		ok := callee == want
-		if tn == "ParenExpr" {
-			ok = ok && strings.HasSuffix(core.Render(call.Common().Args[0]), ".X")
-		}
-		// the arm returns the callee's results
-		val, isVal := call.(*ssa.Call)
-		retOK := false
-		if isVal {
-			for _, r := range core.Returns(b) {
-				rv := core.RetVals(r)
-				if len(rv) == 2 {
-					if ex, ok := rv[0].(*ssa.Extract); ok && ex.Tuple == val && ex.Index == 0 {
-						retOK = true
+// c16Dispatcher finds the function that dispatches on the dynamic type of the
+// parse tree: starting from the tree handed out by parser.Parse in Build, follow
+// the value through calls of functions of the package until a function applies
+// type assertions to it. The function is identified by that role, not by name.
+func c16Dispatcher(c *core.Ctx, build *ssa.Function) (*ssa.Function, *ssa.Parameter, ssa.CallInstruction) {
+	var node ssa.Value
+	for _, g := range c.P.Region(build) {
+		for _, call := range core.Calls(g, condParse+".Parse") {
+			if v, ok := call.(*ssa.Call); ok && v.Referrers() != nil {
+				for _, r := range *v.Referrers() {
+					if ex, ok := r.(*ssa.Extract); ok && ex.Index == 0 {
+						node = ex
 					}
 				}
 			}
 		}
-		c.Check("build", "build:"+tn, call.Pos(), ok && retOK, fmt.Sprintf("build handles *parser.%s by calling %s(%s) (result returned: %v); expected %s on the node itself (ParenExpr: on its X)", tn, callee, core.Render(call.Common().Args[0]), retOK, want))
 	}
-	for tn := range wantDisp {
-		if !found[tn] {
-			c.Check("build", "build:"+tn, b.Pos(), false, "build has no arm for *parser."+tn)
+	if node == nil {
+		return nil, nil, nil
+	}
+	var first ssa.CallInstruction
+	seen := map[ssa.Value]bool{}
+	var follow func(v ssa.Value, depth int) (*ssa.Function, *ssa.Parameter)
+	follow = func(v ssa.Value, depth int) (*ssa.Function, *ssa.Parameter) {
+		if v.Referrers() == nil || depth > 4 || seen[v] {
+			return nil, nil
 		}
+		seen[v] = true
+		for _, r := range *v.Referrers() {
+			switch x := r.(type) {
+			case *ssa.TypeAssert:
+				if p, ok := v.(*ssa.Parameter); ok && strings.Contains(core.TypeStr(x.AssertedType), condParse+".") {
+					return p.Parent(), p
+				}
+			case *ssa.ChangeInterface, *ssa.MakeInterface, *ssa.ChangeType, *ssa.Phi:
+				if f, p := follow(x.(ssa.Value), depth); f != nil {
+					return f, p
+				}
+			case ssa.CallInstruction:
+				h := x.Common().StaticCallee()
+				if h == nil || h.Blocks == nil || core.FuncPkgRel(h) != condPkg {
+					continue
+				}
+				for i, a := range x.Common().Args {
+					if a == v && i < len(h.Params) {
+						if depth == 0 && first == nil {
+							first = x
+						}
+						if f, p := follow(h.Params[i], depth+1); f != nil {
+							return f, p
+						}
+					}
+				}
+			}
+		}
+		return nil, nil
+	}
+	f, p := follow(node, 0)
+	return f, p, first
+}
+
+// c16Origin is one value a builder function can hand back as the condition
+// built for a node: an allocation, the result of a recursive call of the
+// dispatcher, the result of a call of another function, or anything else.
+type c16Origin struct {
+	v    ssa.Value // the value (conversions stripped)
+	bind cxBind    // parameter binding of the frame v lives in
+	call *ssa.Call // when v is result #0 of a call that is not expanded
+}
+
+// c16Origins resolves the success results of fn restricted to the returns for
+// which inArm holds: a return (x, nil) yields x; x that is the first result of
+// a call of a private function of the package is replaced by that function's
+// success results (depth <= 3); `return f(…)` is the same with f's results.
+func c16Origins(c *core.Ctx, fn *ssa.Function, bind cxBind, inArm func(*ssa.Return) bool, disp *ssa.Function, depth int) (out []c16Origin, nRet int) {
+	var ofValue func(v ssa.Value, bind cxBind, depth int) []c16Origin
+	ofValue = func(v ssa.Value, bind cxBind, depth int) []c16Origin {
+		v = core.StripConv(v)
+		if p, ok := v.(*ssa.Parameter); ok {
+			if a, bound := bind[p]; bound {
+				v = a
+			}
+		}
+		if phi, ok := v.(*ssa.Phi); ok {
+			var r []c16Origin
+			for _, e := range phi.Edges {
+				r = append(r, ofValue(e, bind, depth)...)
+			}
+			return r
+		}
+		var call *ssa.Call
+		switch x := v.(type) {
+		case *ssa.Extract:
+			if x.Index == 0 {
+				call, _ = x.Tuple.(*ssa.Call)
+			}
+		case *ssa.Call:
+			if x.Call.Signature().Results().Len() == 1 {
+				call = x
+			}
+		}
+		if call == nil {
+			return []c16Origin{{v: v, bind: bind}}
+		}
+		h := call.Call.StaticCallee()
+		if h == nil || h == disp || h.Blocks == nil || core.FuncPkgRel(h) != condPkg || depth >= 3 || h.Object() == nil || h.Object().Exported() || h.Name() == "buildPrimitive" {
+			return []c16Origin{{v: v, bind: bind, call: call}}
+		}
+		sub, _ := c16Origins(c, h, bind.enter(h, &call.Call), nil, disp, depth+1)
+		return sub
+	}
+	for _, r := range core.Returns(fn) {
+		if inArm != nil && !inArm(r) {
+			continue
+		}
+		rv := core.RetVals(r)
+		if len(rv) == 1 { // a helper that only constructs: every return hands back its value
+			nRet++
+			out = append(out, ofValue(rv[0], bind, depth)...)
+			continue
+		}
+		if len(rv) != 2 {
+			continue
+		}
+		if isNilConst(rv[1]) {
+			nRet++
+			out = append(out, ofValue(rv[0], bind, depth)...)
+			continue
+		}
+		// tail call: return f(…)
+		e0, ok0 := rv[0].(*ssa.Extract)
+		e1, ok1 := rv[1].(*ssa.Extract)
+		if ok0 && ok1 && e0.Tuple == e1.Tuple && e0.Index == 0 && e1.Index == 1 {
+			nRet++
+			out = append(out, ofValue(e0, bind, depth)...)
+		}
+	}
+	return out, nRet
+}
+
+// c16IsBuildOf: v is result #0 of disp(<node>.<field>) where <node> resolves to want.
+func c16IsBuildOf(v ssa.Value, bind cxBind, disp *ssa.Function, nodeParam *ssa.Parameter, want ssa.Value, field string) bool {
+	ex, ok := bind.resolve(v).(*ssa.Extract)
+	if !ok || ex.Index != 0 {
+		return false
+	}
+	call, ok := ex.Tuple.(*ssa.Call)
+	if !ok || call.Call.StaticCallee() != disp {
+		return false
+	}
+	idx := -1
+	for i, p := range disp.Params {
+		if p == nodeParam {
+			idx = i
+		}
+	}
+	if idx < 0 || idx >= len(call.Call.Args) {
+		return false
+	}
+	base, ok := cxLoadField(call.Call.Args[idx], field)
+	return ok && bind.resolve(base) == want
+}
+
+func c16Build(c *core.Ctx) {
+	build := c.P.Func(condPkg, "Build")
+	if build == nil {
+		c.Missing(condPkg + ".Build")
+		return
+	}
+	disp, nodeParam, _ := c16Dispatcher(c, build)
+	if disp == nil {
+		c.Missing(condPkg + ": the function that dispatches on the type of the tree returned by parser.Parse (build)")
+		return
+	}
+	c.Analysed(core.FuncKey(build), core.FuncKey(disp))
+	// the arms: comma-ok type assertions of the node
+	type arm struct {
+		val ssa.Value // the node with its asserted type
+		ok  ssa.Value
+	}
+	arms := map[string]arm{}
+	if nodeParam.Referrers() != nil {
+		for _, r := range *nodeParam.Referrers() {
+			ta, isTA := r.(*ssa.TypeAssert)
+			if !isTA || !ta.CommaOk || ta.Referrers() == nil {
+				continue
+			}
+			tn := cxNamedElem(ta.AssertedType)
+			var a arm
+			for _, u := range *ta.Referrers() {
+				if ex, ok := u.(*ssa.Extract); ok {
+					if ex.Index == 0 {
+						a.val = ex
+					} else {
+						a.ok = ex
+					}
+				}
+			}
+			if a.ok != nil {
+				arms[tn] = a
+			}
+		}
+	}
+	inArm := func(a arm) func(*ssa.Return) bool {
+		return func(r *ssa.Return) bool {
+			return cxAllEdgesFact(r.Block(), func(g core.Guard) bool { return g.Cond == a.ok && g.Pol })
+		}
+	}
+	describe := func(os []c16Origin) string {
+		var s []string
+		for _, o := range os {
+			s = append(s, cxTrim(core.Render(o.v), 80))
+		}
+		return strings.Join(s, " | ")
+	}
+	// composite nodes: the arm yields exactly the composite condition built from the node's own parts
+	type fieldWant struct{ field, from string }
+	composite := func(tn, condType, keyName string, fields []fieldWant) {
+		a, has := arms[tn]
+		if !has || a.val == nil {
+			c.Check("build", "build:"+tn, disp.Pos(), false, core.FuncKey(disp)+" has no arm for *parser."+tn)
+			return
+		}
+		origins, nRet := c16Origins(c, disp, cxBind{}, inArm(a), disp, 0)
+		okDisp := nRet > 0 && len(origins) > 0
+		fieldOK := map[string]bool{}
+		fieldGot := map[string]string{}
+		for _, f := range fields {
+			fieldOK[f.field] = len(origins) > 0
+		}
+		for _, o := range origins {
+			al, isAlloc := o.v.(*ssa.Alloc)
+			if !isAlloc || cxNamedElem(al.Type()) != condType {
+				okDisp = false
+				continue
+			}
+			c.Analysed(core.FuncKey(al.Parent()))
+			stores := cxAllocFieldStores(al)
+			for _, f := range fields {
+				vs := stores[f.field]
+				if len(vs) == 0 {
+					fieldOK[f.field] = false
+				}
+				for _, v := range vs {
+					fieldGot[f.field] += cxTrim(core.Render(v), 80) + " "
+					good := false
+					if f.from == "Op" {
+						base, ok := cxLoadField(v, "Op")
+						good = ok && o.bind.resolve(base) == a.val
+					} else {
+						good = c16IsBuildOf(v, o.bind, disp, nodeParam, a.val, f.from)
+					}
+					if !good {
+						fieldOK[f.field] = false
+					}
+				}
+			}
+		}
+		c.Check("build", "build:"+tn, disp.Pos(), okDisp, fmt.Sprintf("for a *parser.%s the builder yields {%s} (%d success returns); expected on every success path the %s built from that node", tn, describe(origins), nRet, condType))
+		c.Check("build", keyName+":success-returns", disp.Pos(), okDisp, fmt.Sprintf("a success return for *parser.%s hands back %s instead of the %s built from the node's operands", tn, describe(origins), condType))
+		for _, f := range fields {
+			want := "node." + f.from
+			if f.from != "Op" {
+				want = "the condition built from node." + f.from
+			}
+			c.Check("build", keyName+":"+f.field, disp.Pos(), fieldOK[f.field], fmt.Sprintf("%s.%s is built from %s; expected %s (of the same node)", condType, f.field, fieldGot[f.field], want))
+		}
+	}
+	composite("BinaryExpr", "BinaryCond", "buildBinary", []fieldWant{{"op", "Op"}, {"lc", "X"}, {"rc", "Y"}})
+	composite("UnaryExpr", "UnaryCond", "buildUnary", []fieldWant{{"op", "Op"}, {"cond", "X"}})
+	// ParenExpr: the condition of the inner expression; CallExpr: buildPrimitive of the node
+	if a, has := arms["ParenExpr"]; !has || a.val == nil {
+		c.Check("build", "build:ParenExpr", disp.Pos(), false, core.FuncKey(disp)+" has no arm for *parser.ParenExpr")
+	} else {
+		origins, nRet := c16Origins(c, disp, cxBind{}, inArm(a), disp, 0)
+		ok := nRet > 0 && len(origins) > 0
+		for _, o := range origins {
+			if !c16IsBuildOf(o.v, o.bind, disp, nodeParam, a.val, "X") {
+				ok = false
+			}
+		}
+		c.Check("build", "build:ParenExpr", disp.Pos(), ok, fmt.Sprintf("for a *parser.ParenExpr the builder yields {%s}; expected the condition built from its X", describe(origins)))
+	}
+	if a, has := arms["CallExpr"]; !has || a.val == nil {
+		c.Check("build", "build:CallExpr", disp.Pos(), false, core.FuncKey(disp)+" has no arm for *parser.CallExpr")
+	} else {
+		origins, nRet := c16Origins(c, disp, cxBind{}, inArm(a), disp, 0)
+		ok := nRet > 0 && len(origins) > 0
+		for _, o := range origins {
+			good := o.call != nil && core.CallIs(&o.call.Call, condPkg+".buildPrimitive") && len(o.call.Call.Args) == 1 && o.bind.resolve(o.call.Call.Args[0]) == a.val
+			if !good {
+				ok = false
+			}
+		}
+		c.Check("build", "build:CallExpr", disp.Pos(), ok, fmt.Sprintf("for a *parser.CallExpr the builder yields {%s}; expected buildPrimitive of the node itself", describe(origins)))
 	}
 	c.Min("build", 11)
 }
@@ -1227,100 +1445,112 @@ func cxShortCircuit(v ssa.Value) (op string, l, r ssa.Value) {
 	return "", nil, nil
 }
 
-// cxIsMatchOn: v is `invoke <recv>.<field>.Match(req)`.
-func cxIsMatchOn(v ssa.Value, path string) bool {
-	call, ok := v.(*ssa.Call)
-	if !ok || !call.Call.IsInvoke() || call.Call.Method.Name() != "Match" || len(call.Call.Args) != 1 {
-		return false
-	}
-	if _, isParam := call.Call.Args[0].(*ssa.Parameter); !isParam {
-		return false
-	}
-	return core.Render(call.Call.Value) == path
-}
-
-// cxOpGuard: the block is reached only when <recv>.op == val.
-func cxOpGuard(b *ssa.BasicBlock, path string, val int64) bool {
-	return core.AllEdgesGuarded(b, func(g core.Guard) bool {
-		bo, ok := g.Cond.(*ssa.BinOp)
-		if !ok {
-			return false
-		}
-		for _, pr := range [][2]ssa.Value{{bo.X, bo.Y}, {bo.Y, bo.X}} {
-			if k, isk := cxConstInt(pr[1]); isk && k == val && core.Render(pr[0]) == path {
-				return bo.Op == token.EQL && g.Pol || bo.Op == token.NEQ && !g.Pol
+// c16MatchTable evaluates a Match method of a composite condition on abstract
+// inputs: the operator stored in the receiver and the truth values of the
+// operand conditions (field name -> value of <recv>.<field>.Match(req)).
+// Switches, if-chains, short-circuit operators, early returns, named booleans
+// and private helpers all evaluate to the same result.
+func c16MatchTable(fn *ssa.Function, op int64, operands map[string]bool) (result, ok bool, why string) {
+	it := &cxInterp{NonNil: true}
+	it.Oracle = func(it *cxInterp, fr *cxFrame, v ssa.Value) (cxVal, bool) {
+		switch x := v.(type) {
+		case *ssa.UnOp:
+			if x.Op == token.MUL {
+				if k, isSym := cxSymKey(it.get(fr, x.X)); isSym && k == "&recv.op" {
+					return op, true
+				}
+			}
+		case *ssa.Call:
+			if x.Call.IsInvoke() && x.Call.Method.Name() == "Match" && len(x.Call.Args) == 1 {
+				rk, ok1 := cxSymKey(it.get(fr, x.Call.Value))
+				ak, ok2 := cxSymKey(it.get(fr, x.Call.Args[0]))
+				if ok1 && ok2 && ak == "req" && strings.HasPrefix(rk, "recv.") {
+					if b, known := operands[strings.TrimPrefix(rk, "recv.")]; known {
+						return b, true
+					}
+				}
+				return nil, true
 			}
 		}
-		return false
-	})
+		return nil, false
+	}
+	res, done := it.Run(fn, []cxVal{cxSym{"recv"}, cxSym{"req"}})
+	if !done || len(res) != 1 {
+		return false, false, it.Why
+	}
+	b, isBool := res[0].(bool)
+	if !isBool {
+		return false, false, "the result is not determined by the operator and the operands' truth values"
+	}
+	return b, true, ""
 }
 
 func c16Eval(c *core.Ctx, yt *yTables) {
+	tv := func(b bool) string {
+		if b {
+			return "T"
+		}
+		return "F"
+	}
 	bm := c.P.Func(condPkg, "BinaryCond.Match")
 	if bm == nil {
 		c.Missing(condPkg + ".BinaryCond.Match")
 	} else {
 		c.Analysed(core.FuncKey(bm))
-		recv := bm.Params[0].Name()
 		for _, w := range []struct{ tok, op string }{{"LAND", "&&"}, {"LOR", "||"}} {
-			n, ok, detail := 0, true, ""
-			for _, r := range core.Returns(bm) {
-				if !cxOpGuard(r.Block(), recv+".op", int64(yt.Consts[w.tok])) {
-					continue
-				}
-				n++
-				rv := core.RetVals(r)[0]
-				op, l, rr := cxShortCircuit(rv)
-				// operand order does not change the truth value (primitives have no side effects): accept either
-				direct := cxIsMatchOn(l, recv+".lc") && cxIsMatchOn(rr, recv+".rc")
-				swapped := cxIsMatchOn(l, recv+".rc") && cxIsMatchOn(rr, recv+".lc")
-				if op != w.op || !(direct || swapped) {
-					ok = false
-					detail = fmt.Sprintf("returns %s (recognised as %q of %s, %s)", cxTrim(core.Render(rv), 200), op, core.Render(l), core.Render(rr))
+			ok, detail := true, ""
+			for _, l := range []bool{false, true} {
+				for _, r := range []bool{false, true} {
+					want := l && r
+					if w.op == "||" {
+						want = l || r
+					}
+					got, decided, why := c16MatchTable(bm, int64(yt.Consts[w.tok]), map[string]bool{"lc": l, "rc": r})
+					switch {
+					case !decided:
+						ok = false
+						detail += fmt.Sprintf("lc=%s rc=%s: undecided (%s); ", tv(l), tv(r), why)
+					case got != want:
+						ok = false
+						detail += fmt.Sprintf("lc=%s rc=%s: returns %s; ", tv(l), tv(r), tv(got))
+					}
 				}
 			}
-			if n == 0 {
-				ok = false
-				detail = "has no return under op == " + w.tok
-			}
-			c.Check("eval", "BinaryCond.Match:"+w.tok, bm.Pos(), ok, "BinaryCond.Match under op == "+w.tok+" "+detail+"; expected lc.Match(req) "+w.op+" rc.Match(req)")
+			c.Check("eval", "BinaryCond.Match:"+w.tok, bm.Pos(), ok, "BinaryCond.Match under op == "+w.tok+": "+detail+"expected lc.Match(req) "+w.op+" rc.Match(req)")
 		}
 		// any other operator value: false
-		okDef := true
-		for _, r := range core.Returns(bm) {
-			if cxOpGuard(r.Block(), recv+".op", int64(yt.Consts["LAND"])) || cxOpGuard(r.Block(), recv+".op", int64(yt.Consts["LOR"])) {
-				continue
-			}
-			if core.Render(core.RetVals(r)[0]) != "false" {
-				okDef = false
+		okDef, detail := true, ""
+		for _, other := range []int64{int64(yt.Consts["NOT"]), 0, 1 << 20} {
+			for _, l := range []bool{false, true} {
+				for _, r := range []bool{false, true} {
+					got, decided, why := c16MatchTable(bm, other, map[string]bool{"lc": l, "rc": r})
+					if !decided || got {
+						okDef = false
+						detail = fmt.Sprintf("op=%d lc=%s rc=%s: %s %s", other, tv(l), tv(r), tv(got), why)
+					}
+				}
 			}
 		}
-		c.Check("eval", "BinaryCond.Match:other-op", bm.Pos(), okDef, "BinaryCond.Match returns something other than false for an operator that is neither LAND nor LOR")
+		c.Check("eval", "BinaryCond.Match:other-op", bm.Pos(), okDef, "BinaryCond.Match returns something other than false for an operator that is neither LAND nor LOR ("+detail+")")
 	}
 	um := c.P.Func(condPkg, "UnaryCond.Match")
 	if um == nil {
 		c.Missing(condPkg + ".UnaryCond.Match")
 	} else {
 		c.Analysed(core.FuncKey(um))
-		recv := um.Params[0].Name()
-		n, ok, detail := 0, true, ""
-		for _, r := range core.Returns(um) {
-			if !cxOpGuard(r.Block(), recv+".op", int64(yt.Consts["NOT"])) {
-				continue
-			}
-			n++
-			rv := core.RetVals(r)[0]
-			u, isU := rv.(*ssa.UnOp)
-			if !isU || u.Op != token.NOT || !cxIsMatchOn(u.X, recv+".cond") {
+		ok, detail := true, ""
+		for _, v := range []bool{false, true} {
+			got, decided, why := c16MatchTable(um, int64(yt.Consts["NOT"]), map[string]bool{"cond": v})
+			switch {
+			case !decided:
 				ok = false
-				detail = "returns " + cxTrim(core.Render(rv), 200)
+				detail += fmt.Sprintf("cond=%s: undecided (%s); ", tv(v), why)
+			case got != !v:
+				ok = false
+				detail += fmt.Sprintf("cond=%s: returns %s; ", tv(v), tv(got))
 			}
 		}
-		if n == 0 {
-			ok = false
-			detail = "has no return under op == NOT"
-		}
-		c.Check("eval", "UnaryCond.Match:NOT", um.Pos(), ok, "UnaryCond.Match under op == NOT "+detail+"; expected !cond.Match(req)")
+		c.Check("eval", "UnaryCond.Match:NOT", um.Pos(), ok, "UnaryCond.Match under op == NOT: "+detail+"expected !cond.Match(req)")
 	}
 	c.Min("eval", 4)
 }
